@@ -330,6 +330,14 @@ func main() {
 						mu.Unlock()
 						continue
 					}
+					if pre := filepath.Join(scratch, fmt.Sprintf("pre-%s-%d.json", prop, lastBegin)); !finished && fileExists(pre) && !strings.Contains(so, "watchdog") {
+						// the process died inside a run whose plan is on disk: a candidate process-killer
+						msg := "the worker process died while executing this run:\n" + tail(so, 25)
+						recs = append(recs, runRecord{Seed: lastBegin, End: "process-death", Viol: &violation{Oracle: "process-death", Fp: "process-death:" + deathClass(so), Msg: msg}, Replay: pre})
+						j.from = lastBegin + 1
+						mu.Unlock()
+						continue
+					}
 					if !finished {
 						hangInfo := ""
 						if b, e := os.ReadFile(outFile); e == nil {
@@ -434,6 +442,27 @@ func main() {
 			continue
 		}
 		final := filepath.Join(verifDir, "replays", fmt.Sprintf("%s-%d.json", prop, r.Seed))
+		if r.Viol.Oracle == "process-death" {
+			b, _ := os.ReadFile(r.Replay)
+			os.WriteFile(final, b, 0o644)
+			confirmed := false
+			for a := 0; a < 3 && !confirmed; a++ {
+				so, err := runWorker(bin, map[string]string{"VS_MODE": "replay", "VS_REPLAY": final}, 5*time.Minute)
+				if err != nil && !strings.Contains(so, `"replayed":true`) {
+					confirmed = true
+				}
+			}
+			if confirmed {
+				fmt.Printf("VIOLATION property=%s replay=%s\n", prop, final)
+				exit = 1
+			} else {
+				fmt.Printf("UNREPRODUCED process death for seed %d\n", r.Seed)
+				if exit == 0 {
+					exit = 2
+				}
+			}
+			continue
+		}
 		so, err := runWorker(bin, map[string]string{"VS_MODE": "shrink", "VS_REPLAY": r.Replay, "VS_SHRUNK": final, "VS_BUDGET": "800", "VS_SCRATCH": scratch}, 10*time.Minute)
 		if err != nil || !strings.Contains(so, `"shrunk":true`) {
 			// fall back to the unshrunk file
@@ -625,4 +654,26 @@ func buildEvidence(prop, tier string, baseSeed uint64, info propInfo, recs []run
 		"violations":  violations,
 	}
 	return out
+}
+
+func fileExists(p string) bool {
+	_, err := os.Stat(p)
+	return err == nil
+}
+
+// deathClass: first line of the runtime's report (panic / fatal error), shortened.
+func deathClass(out string) string {
+	for _, ln := range strings.Split(out, "\n") {
+		if strings.HasPrefix(ln, "panic:") || strings.HasPrefix(ln, "fatal error:") || strings.HasPrefix(ln, "runtime:") {
+			ln = strings.TrimSpace(ln)
+			if i := strings.IndexAny(ln, "0123456789["); i > 12 {
+				ln = ln[:i]
+			}
+			if len(ln) > 70 {
+				ln = ln[:70]
+			}
+			return strings.ReplaceAll(ln, " ", "_")
+		}
+	}
+	return "unknown"
 }
